@@ -27,6 +27,7 @@ import Nervus.Proofs.CypherAgg
 import Nervus.Proofs.CypherCore
 import Nervus.Proofs.CypherF1a
 import Nervus.Proofs.CypherF1aDir
+import Nervus.Proofs.CypherF1b
 import Nervus.Model.QRun
 import Nervus.Model.QAlgebra
 namespace Nervus.Props.C11
@@ -72,7 +73,7 @@ theorem C11_F1a_node (A : Algebra) (env : Env) (hsym : EqSymm A) (hg : env.g.Nod
   f1a_node_refines A env hsym hg a ls tail hc hs
 
 /-- **C11 on F1a, single outgoing hop** — `MATCH (a:La)-[ev:T1|T2…]->(d:Ld)` as the first clause, followed by core
-    clauses without DISTINCT / SKIP / LIMIT (`bagClauses`), on graphs without parallel relationship copies
+    clauses without SKIP / LIMIT (`bagClauses`; DISTINCT is allowed: it respects permutations, `dedup_perm`), on graphs without parallel relationship copies
     (`NoParallel`, the trigger of C11-parallel-rel-reuse): the compiled plan (anchor scan + IndexSeek, label filters,
     MatchOut with destination labels and the hidden path column, WHERE equality conjuncts pushed down on all three
     aliases) and the reference return the same bag of rows.  Side conditions: distinct variable names, none of them
@@ -88,7 +89,7 @@ theorem C11_F1a_hop_out (A : Algebra) (env : Env) (hsym : EqSymm A) (hg : env.g.
   f1a_hop_out_agrees A env hsym hg hnp a d la dl rels ev tail hrels had hev hap hdp hep hin hc hs
 
 /-- **C11 on F1a, one hop in any direction** — `MATCH (a:La)-[ev:T…]->(d:Ld)`, `<-[…]-` or `-[…]-` (undirected, with
-    the self-loop rule) as the first clause, then core clauses without DISTINCT / SKIP / LIMIT, on graphs without
+    the self-loop rule) as the first clause, then core clauses without SKIP / LIMIT, on graphs without
     parallel copies: the same bag of rows.  For the incoming and the undirected hop the engine binds the
     destination before the relationship variable, so model and reference rows agree up to column order until the
     first projection (`HRelE`). -/
@@ -102,7 +103,32 @@ theorem C11_F1a_hop (A : Algebra) (env : Env) (hsym : EqSymm A) (hg : env.g.Node
       (Spec.denote A env (.match_ false [hopPatD dir a la ev rels d dl] :: tail)) :=
   f1a_hop_agrees A env hsym hg hnp dir a d la dl rels ev tail hrels had hev hap hdp hep hin hc hs
 
-/-- the reference's core clauses (no DISTINCT / SKIP / LIMIT: `bagClauses`) respect "same bag of rows once the hidden
+/-- **F1b, first half of the OPTIONAL MATCH step** — `MATCH (a:La) OPTIONAL MATCH (a)-[ev:T…]-(d:Ld)` (any
+    direction, tail not starting with WHERE) compiles to `OptionalWhereFixup (plan of the first MATCH) (one hop from the
+    bound variable over that plan, hidden path column pa1) aliases`, and the tail is compiled from that loop state -/
+theorem C11_F1b_compile (dir : Dir) (a d : String) (la dl rels : List String) (ev : Option String) (tail : Query)
+    (had : a ≠ d) (hev : ∀ e, ev = some e → e ≠ a) (hnw : ∀ w rest, tail ≠ .where_ w :: rest) :
+    ∃ st, Compile.compileClauses
+        (.match_ false [⟨⟨some a, la, []⟩, []⟩] :: .match_ true [hopPatD dir a [] ev rels d dl] :: tail) {} =
+      Compile.compileClauses tail { plan := some (optPlan dir a la ev rels d dl), st := st, pending := none } :=
+  compileClauses_F1b dir a d la dl rels ev tail had hev hnw
+
+/-- … its rows: every node row of the first MATCH keeps exactly its own expansions, or — when it has none — is
+    emitted once with the null aliases set to null (op6 instantiated for the compiled plan: the outer rows are
+    pairwise distinct because node ids are; an expansion carries its own outer row's binding and no other's); and the
+    null aliases are exactly the new variables `d` and `ev` -/
+theorem C11_F1b_rows (A : Algebra) (env : Env) (hg : env.g.NodesDistinct) (dir : Dir) (a d : String)
+    (la dl rels : List String) (ev : Option String) (had : a ≠ d) (hap : a ≠ pa1)
+    (hev : ∀ e, ev = some e → e ≠ a ∧ e ≠ d) :
+    Exec.exec A env (optPlan dir a la ev rels d dl) = .ok ((nodeRows0 A env a la).flatMap fun o =>
+      if (stepRowD env dir a rels ev d dl pa1 o).isEmpty then
+        [(optAliases dir a la ev rels d dl).foldl (fun r x => r.set x .null) o]
+      else stepRowD env dir a rels ev d dl pa1 o) ∧
+    ∀ x, x ∈ optAliases dir a la ev rels d dl ↔ (x = d ∨ ev = some x) :=
+  ⟨exec_optPlan A env hg dir a d la dl rels ev had hap (fun e he => (hev e he).1.symm),
+   mem_optAliases dir a d la dl rels ev had hev⟩
+
+/-- the reference's core clauses (no SKIP / LIMIT: `bagClauses`) respect "same bag of rows once the hidden
     path column is erased" — the relation between the rows of a MATCH plan and the reference's rows; with
     `C11_core_induction` this reduces an F1a query to its MATCH step -/
 theorem C11_core_bag_congruence (A : Algebra) (env : Env) (pa : String) (q : Query) (b : Bool) (s s' : List String)
@@ -450,6 +476,20 @@ def qOptionalDup : Query :=
 theorem counterexample_optional_duplicate_outer :
     ¬ Agrees (Exec.run small { g := gOneNode } qOptionalDup) (Spec.denote small { g := gOneNode } qOptionalDup) := by
   decide
+
+/-- a MATCH on a variable that an OPTIONAL MATCH left null keeps the row:
+    `MATCH (n1) OPTIONAL MATCH (n1)-[:X]->(n2) MATCH (n2) RETURN n1` over one node returns one row, the reference none -/
+def qNullBoundMatch : Query :=
+  [.match_ false [⟨⟨some "n1", [], []⟩, []⟩],
+   .match_ true [⟨⟨some "n1", [], []⟩, [(⟨none, ["X"], .out, []⟩, ⟨some "n2", [], []⟩)]⟩],
+   .match_ false [⟨⟨some "n2", [], []⟩, []⟩],
+   .return_ ⟨false, [⟨.plain (.var "n1"), "n1"⟩], [], none, none⟩]
+
+theorem counterexample_match_null_bound_variable :
+    ¬ Agrees (Exec.run small { g := gOneNode } qNullBoundMatch) (Spec.denote small { g := gOneNode } qNullBoundMatch) := by
+  decide
+
+example : (Findings.triggers small { g := gOneNode } qNullBoundMatch) = ["C11-match-null-bound-variable"] := by decide
 
 /-- formerly a counterexample (the planner dropped the property map of an anonymous relationship pattern),
     repaired by fix 0a34a68: `MATCH (a)-[{w: 5}]->(b)` no longer matches a relationship without `w`. -/
